@@ -192,7 +192,11 @@ func goid() uint64 {
 
 // self returns the execution and controlled thread of the calling goroutine,
 // or nil,nil for pass-through.
-func self() (*exec, *thread) {
+func self() (*exec, *thread) { return selfCount(true) }
+
+// selfCount: count=false for race-oracle accesses, which are not operations
+// the scheduler would have had to control (e.g. a finalizer reading a field).
+func selfCount(count bool) (*exec, *thread) {
 	x := current()
 	if x == nil {
 		return nil, nil
@@ -201,8 +205,14 @@ func self() (*exec, *thread) {
 	x.mu.Lock()
 	t := x.byGid[g]
 	x.mu.Unlock()
+	if t == nil && !count {
+		return nil, nil
+	}
 	if t == nil {
-		atomic.AddInt64(&x.foreign, 1)
+		if atomic.AddInt64(&x.foreign, 1) == 1 && os.Getenv("VRT_DEBUG_FOREIGN") != "" {
+			buf := make([]byte, 4096)
+			os.Stderr.Write(buf[:runtime.Stack(buf, false)])
+		}
 		return nil, nil
 	}
 	return x, t
